@@ -2,7 +2,7 @@
    clauses, and each clause established from the model. *)
 From GV Require Import Base.AListFacts Pool.Model Pool.Observe Pool.Monitors
                        Pool.Lemmas Pool.Inv Pool.Inv2 Pool.Frames Pool.Sim Pool.InvC20 Pool.SimHome
-                       Pool.Reduce Pool.C07Refresh Pool.C07Frames.
+                       Pool.Reduce Pool.InvC02 Pool.C07Refresh Pool.C07Frames.
 From Coq Require Import Lia ZifyBool.
 Open Scope Z_scope.
 
@@ -22,7 +22,7 @@ Definition c07_done_check (e : config) (undet : bool) (now : Z) (refr_b refr_a :
     (sl_de y =? (sl_de x + 1) mod W32) && (sl_last y =? sl_last x) && (sl_rcnt y =? sl_rcnt x) &&
     (if window_in_range e (sl_rcnt x) then
        Bool.eqb (has_newsc outs)
-                ((c_ucalls e <=? sl_de x + 1) && (sl_last x <? now - window_ns e (sl_rcnt x)) &&
+                ((c_ucalls e <=? (sl_de x + 1) mod W32) && (sl_last x <? now - window_ns e (sl_rcnt x)) &&
                  negb (sl_refreshing x))
      else true) &&
     (if has_newsc outs then
@@ -35,9 +35,11 @@ Definition c07_done_check (e : config) (undet : bool) (now : Z) (refr_b refr_a :
        end
      else Bool.eqb (sl_refreshing y) (sl_refreshing x)).
 
-Definition c07_swap_check (sc : N) (i : nat) (before after : obs) (outs : list out) (x y : slot) : bool :=
+Definition c07_swap_check (sc : N) (i : nat) (before after : obs) (outs : list out) (ub : list (nat * N))
+    (x y : slot) : bool :=
   list_eqb N.eqb (removes outs) [sl_conn x] &&
-  N.eqb (sl_conn y) sc && (sl_aff y =? sl_aff x) && (sl_streams y =? sl_streams x) &&
+  N.eqb (sl_conn y) sc && (sl_aff y =? sl_aff x) &&
+  (sl_streams y =? sl_streams x + Z.of_nat (length (filter (fun jn => N.eqb (snd jn) sc) ub))) &&
   negb (sl_refreshing y) && (sl_de y =? 0) && (sl_last y =? o_now before) &&
   (sl_rcnt y =? (sl_rcnt x + 1) mod W32) &&
   match aget (o_refr after) sc with None => true | Some _ => false end &&
@@ -68,7 +70,7 @@ Lemma c07_event_swap raw ms before sc outs rt ub after :
   match aget (o_refr before) sc with
   | Some i =>
       match o_slot before i, o_slot after i with
-      | Some x, Some y => c07_swap_check sc i before after outs x y
+      | Some x, Some y => c07_swap_check sc i before after outs ub x y
       | _, _ => false
       end
   | None => no_removes outs
@@ -119,7 +121,6 @@ Proof. destruct k; reflexivity. Qed.
 
 Lemma done_check_holds s p oc r e refr_b refr_a :
   cfg_ucalls s = c_ucalls e -> cfg_ums s = c_ums e -> InvU s ->
-  0 <= sl_de r -> sl_de r + 1 < W32 ->
   match snd (du_result s p oc r) with
   | KOk => aget refr_a (b_next s) = Some (pk_slot p)
   | _ => refr_a = refr_b
@@ -127,7 +128,7 @@ Lemma done_check_holds s p oc r e refr_b refr_a :
   c07_done_check e (b_undet s) (b_now s) refr_b refr_a (mpick_of p) oc
                  (du_outs s (snd (du_result s p oc r))) r (fst (du_result s p oc r)) = true.
 Proof.
-  intros Hc1 Hc2 HU Hd0 Hd1. unfold du_result, c07_done_check.
+  intros Hc1 Hc2 HU. unfold du_result, c07_done_check.
   cbn [mp_deadline mp_started mp_slot mpick_of]. unfold eqb_slot_refresh.
   destruct (b_undet s) eqn:Eu; cbn [negb].
   2:{ intros _. cbn [fst snd du_outs has_newsc existsb negb andb]. apply slot_refresh_eqb_refl. }
@@ -139,7 +140,8 @@ Proof.
   { intros _. cbn [fst snd du_outs has_newsc existsb negb andb]. apply slot_refresh_eqb_refl. }
   cbv zeta.
   assert (Htr : window_in_range e (sl_rcnt r) = true ->
-                du_trigger s r = (c_ucalls e <=? sl_de r + 1) && (sl_last r <? b_now s - window_ns e (sl_rcnt r))).
+                du_trigger s r = (c_ucalls e <=? (sl_de r + 1) mod W32) &&
+                                 (sl_last r <? b_now s - window_ns e (sl_rcnt r))).
   { intros Hw. apply du_trigger_eq; auto. lia. }
   destruct (du_trigger s r) eqn:Etr.
   - destruct (sl_refreshing r) eqn:Erf.
@@ -166,7 +168,7 @@ Proof.
 Qed.
 
 Lemma c07_done_holds raw s ms j oc rk order s' outs rt ub :
-  Inv s -> InvU s -> Sim s ms -> de_ok s -> rt <> RBadOp ->
+  Inv s -> InvU s -> Sim s ms -> rt <> RBadOp ->
   full_step raw s (OpDone j oc rk) order = (s', outs, rt, ub) ->
   match nth_error (ms_picks ms) j with
   | Some p =>
@@ -179,7 +181,7 @@ Lemma c07_done_holds raw s ms j oc rk order s' outs rt ub :
   | None => true
   end = true.
 Proof.
-  intros HI HU HS Hde Hrt. rewrite full_step_eq. cbn [step].
+  intros HI HU HS Hrt. rewrite full_step_eq. cbn [step].
   destruct (Done s j oc rk) as [[s1 o1] r1] eqn:Ed.
   destruct (resolve_blocked s1) as [s2 ub2] eqn:Er. intros E; inv E.
   destruct (Done_spec _ _ _ _ _ _ _ HI Ed Hrt) as (p & r & Hj & Hst & Hr & H1 & H2 & H3). cbv zeta in H1, H2, H3.
@@ -209,13 +211,10 @@ Proof.
   change (o_undet (observe s)) with (b_undet s0). change (o_now (observe s)) with (b_now s0).
   change (o_refr (observe s)) with (asort (b_refr s0)).
   change (o_refr (observe s')) with (asort (b_refr s')). rewrite Hrf, H2.
-  pose proof (de_le_slot _ _ _ _ Hde Hr) as Hdr.
   apply done_check_holds.
   - change (cfg_ucalls s0) with (cfg_ucalls s). unfold cfg_ucalls, eff. rewrite Ec, Hc. reflexivity.
   - change (cfg_ums s0) with (cfg_ums s). unfold cfg_ums, eff. rewrite Ec, Hc. reflexivity.
   - exact HU.
-  - change (sl_de r0) with (sl_de r). lia.
-  - change (sl_de r0) with (sl_de r). unfold W32 in *. lia.
   - fold res. destruct (snd res); try reflexivity. cbn [du_refr].
     rewrite aget_asort; [apply aget_aset_eq|].
     apply NoDup_akeys_aset. change (b_refr s0) with (b_refr s). apply (nd_refr (proj1 HI)).
@@ -240,23 +239,15 @@ Qed.
 Lemma asort_rekey m a b : asort (rekey m a b) = rekey (asort m) a b.
 Proof. unfold rekey. apply asort_map. intros [k v]; cbn. destruct (N.eqb v a); reflexivity. Qed.
 
-(* a swap event in which no call waiting on the swapped channel returned *)
-Definition swap_quiet_ev (ev : event) : Prop :=
-  match ev_op ev with
-  | OpConnState sc Ready => removes (ev_out ev) <> [] -> forall j, ~ In (j, sc) (ev_ub ev)
-  | _ => True
-  end.
-
 Lemma c07_swap_holds raw s sc order s' outs rt ub i :
-  Inv s -> full_step raw s (OpConnState sc Ready) order = (s', outs, rt, ub) ->
+  Inv s -> picks_ok s' -> full_step raw s (OpConnState sc Ready) order = (s', outs, rt, ub) ->
   aget (o_refr (observe s)) sc = Some i ->
-  swap_quiet_ev (mkEvent (OpConnState sc Ready) outs rt ub (Some (observe s'))) ->
   match o_slot (observe s) i, o_slot (observe s') i with
-  | Some x, Some y => c07_swap_check sc i (observe s) (observe s') outs x y
+  | Some x, Some y => c07_swap_check sc i (observe s) (observe s') outs ub x y
   | _, _ => false
   end = true.
 Proof.
-  intros HI E Hri Hq. pose proof (proj1 HI) as HK.
+  intros HI Hok E Hri. pose proof (proj1 HI) as HK.
   assert (Hr : aget (b_refr s) sc = Some i).
   { unfold observe in Hri; cbn [o_refr] in Hri. rewrite aget_asort in Hri by apply (nd_refr HK). exact Hri. }
   destruct (refr_get_slot s HK _ _ Hr) as [ref [Hs _]].
@@ -268,16 +259,17 @@ Proof.
   pose proof (swap_ne s sc i ref HI Hr Hs) as Hne.
   assert (Hs1 : get_slot s1 i = Some (swapped_slot sc (b_now s) ref)).
   { unfold get_slot. rewrite R2, nth_error_upd_nth_eq. unfold get_slot in Hs. rewrite Hs. reflexivity. }
-  cbn [swap_quiet_ev ev_op ev_out ev_ub] in Hq.
-  assert (Hq' : forall j, ~ In (j, sc) ub) by (apply Hq; rewrite R1; discriminate).
-  pose proof (resolve_blocked_streams s1 s' ub i _ HI1 Er Hs1 Hq') as Hs'.
-  destruct (resolve_blocked_spec _ _ _ HI1 Er) as [HI' [Hm _]]. pose proof (proj1 HI') as HK'.
+  destruct (resolve_blocked_spec _ _ _ HI1 Er) as [HI' [Hm [Hpk _]]]. pose proof (proj1 HI') as HK'.
+  assert (Hok1 : picks_ok s1).
+  { unfold picks_ok in *. rewrite Hpk, map_length in Hok. exact Hok. }
+  pose proof (resolve_blocked_streams_count s1 s' ub i _ HI1 Hok1 Er Hs1) as Hs'.
   pose proof (f_equal b_refr Hm) as M1. pose proof (f_equal b_aff Hm) as M2.
   pose proof (f_equal b_screfs Hm) as M3. pose proof (f_equal b_scstates Hm) as M4. cbn in M1, M2, M3, M4.
   change (o_slot (observe s) i) with (get_slot s i). rewrite Hs.
   change (o_slot (observe s') i) with (get_slot s' i). rewrite Hs'.
-  unfold c07_swap_check, o_conn_ready, o_conn_state, observe;
-    cbn [o_refr o_aff o_refs o_now o_st swapped_slot sl_conn sl_aff sl_streams sl_last sl_de sl_refreshing sl_rcnt].
+  unfold c07_swap_check, o_conn_ready, o_conn_state, observe, handed;
+    cbn [o_refr o_aff o_refs o_now o_st swapped_slot sl_set_streams
+         sl_conn sl_aff sl_streams sl_last sl_de sl_refreshing sl_rcnt].
   rewrite R1. cbn [list_eqb]. rewrite !N.eqb_refl, !Z.eqb_refl. cbn [andb negb].
   rewrite (aget_asort (b_refr s')) by apply (nd_refr HK').
   rewrite !(aget_asort (b_screfs s')) by apply (nd_screfs HK').
